@@ -70,6 +70,18 @@ MUTABLE_FIELDS = [
 ]
 
 
+def _vary_wavenumber(spec, r):
+    """Sometimes another wavenumber of the same kind (same compiled kernels, different cache keys)."""
+    w = spec.get("wavenumber")
+    if w is None or r.random() >= 0.3:
+        return spec
+    if isinstance(w, list):
+        spec["wavenumber"] = [3.1, 0.0] if w[1] == 0 else [1.1, 0.4]
+    else:
+        spec["wavenumber"] = 0.9
+    return spec
+
+
 def _admissible(spec, kinds):
     """(domain kinds, dual kinds) of the bundle that the operator accepts."""
     if spec["family"] == "maxwell":
@@ -220,7 +232,7 @@ class C18Check(object):
 
         def new_op():
             nonlocal nops
-            spec = copy.deepcopy(r.choice(b["ops"]))
+            spec = _vary_wavenumber(copy.deepcopy(r.choice(b["ops"])), r)
             dk, tk = _admissible(spec, b["kinds"])
             if not dk or not tk:
                 return
@@ -249,7 +261,7 @@ class C18Check(object):
             nonlocal npots
             if b.get("pot") is None:
                 return
-            spec = copy.deepcopy(b["pot"])
+            spec = _vary_wavenumber(copy.deepcopy(b["pot"]), r)
             kinds = [k for k in b["kinds"] if (k in ("RWG", "BC")) == (spec["family"] == "maxwell") and k not in ("SNC", "RBC")]
             if not kinds:
                 return
@@ -269,7 +281,7 @@ class C18Check(object):
             cands = [sp for sp in b["ops"] if sp["family"] != "sparse"]
             if not cands:
                 return None
-            spec = copy.deepcopy(r.choice(cands))
+            spec = _vary_wavenumber(copy.deepcopy(r.choice(cands)), r)
             dk, tk = _admissible(spec, b["kinds"])
             if not dk or not tk:
                 return None
